@@ -53,6 +53,42 @@ def points_for(rng, sparse, indexer, dense, cont, k):
     return pts
 
 
+def nonfinite_elsewhere(k, arr, pts, sparse, idx, nadm, dense, cont):
+    """In every third case with a discrete axis: -inf / +inf / NaN stored in discrete cells that NO evaluation point addresses
+    (lcm itself stores -inf for states without feasible choice).  The function must return the entry selected exactly by the
+    labels, so what other cells hold is irrelevant.  (Own random stream: the cases are otherwise unchanged.)"""
+    import random
+
+    r2 = random.Random(f"nonfinite:{k}")
+    dshape = ([nadm] if sparse else []) + list(dense)
+    if k % 3 != 1 or not dshape:
+        return ""
+    ncell = 1
+    for s in dshape:
+        ncell *= s
+    csize = len(arr) // ncell
+    used = set()
+    for p in pts:
+        lead = []
+        if sparse:
+            flat = 0
+            for x, s in zip(p["sparse"], sparse, strict=True):
+                flat = flat * s + x
+            lead.append(idx[flat] % nadm)        # an excluded combination (-1) addresses the last row
+        lead += p["dense"]
+        cell = 0
+        for x, s in zip(lead, dshape, strict=True):
+            cell = cell * s + x
+        used.add(cell)
+    free = [c for c in range(ncell) if c not in used]
+    if not free:
+        return ""
+    for c in r2.sample(free, max(1, len(free) // 2)):
+        for j in r2.sample(range(csize), max(1, csize // 2)):
+            arr[c * csize + j] = r2.choice([[-1, 0], [-1, 0], [1, 0], [0, 0]])
+    return " non-finite entries in other discrete cells"
+
+
 def make_cases(ctx, masks, n_random):
     """masks: TLC-enumerated (sshape, cshape, mask) triples; the indexer of each is read off the
     mask by the real create_indexers_and_segments in the driver? No: it is part of the *input* (ranks of
@@ -78,9 +114,11 @@ def make_cases(ctx, masks, n_random):
         if size > 400:
             return
         arr = [q(rng.randint(-8, 8)) for _ in range(size)]
+        pts = points_for(rng, sparse, idx, dense, cont, 6)
+        label += nonfinite_elsewhere(len(cases), arr, pts, sparse, idx, r, dense, cont)
         cases.append({"fn": "funcrep", "kind": label + (" log" if log and ncont else ""), "sparse": sparse, "indexer": idx, "nadm": r,
                       "dense": dense, "cont": cont, "arr": arr, "prefix": rng.choice(["", "next_"]),
-                      "points": points_for(rng, sparse, idx, dense, cont, 6),
+                      "points": pts,
                       "tol": [1, 512] if (log and ncont) else EXACT,
                       # every fifth case in 64-bit mode with a float32 array and float64 evaluation points
                       "mixed": len(cases) % 5 == 4})
